@@ -238,12 +238,18 @@ def T(e):
         return T(e["e"])
     if k == "mem":
         b = e.get("base")
+        if not e.get("name"):
+            return T(b) if b is not None else "this"      # member of an anonymous union/struct
+        arrow = e.get("arrow")
+        while isinstance(b, dict) and b.get("k") == "mem" and not b.get("name"):
+            arrow = b.get("arrow")          # skip anonymous union/struct members
+            b = b.get("base")
         bt = T(b) if b is not None else "this"
         if e.get("static") and e.get("qname"):
             return e["qname"]
-        if bt.startswith("*") and not e.get("arrow"):
+        if bt.startswith("*") and not arrow:
             return bt[1:] + "->" + e["name"]
-        return bt + ("->" if e.get("arrow") else ".") + e["name"]
+        return bt + ("->" if arrow else ".") + e["name"]
     if k == "index":
         return T(e["base"]) + "[" + T(e["idx"]) + "]"
     if k == "un":
